@@ -121,14 +121,16 @@ def h_export(H, blocks, twice=False):
 PROPERTY = {
     'C03': dict(
         level='other',
-        explanation='the real export_graph / link_combiners_to_branches are executed on torch.fx graphs of ENUMERATED small topologies (one choice block, 2..3 '
-                    'branches: single layer, two-layer sequence, identity) with symbolic selection coefficients, weights and inputs: exported graph == hard-selection '
+        explanation='the real export_graph / link_combiners_to_branches are executed on torch.fx graphs of ENUMERATED small topologies (1..3 choice blocks of 2..3 and 12 '
+                    'branches: single layer, two-layer sequence, identity; a block invoked twice; whole SuperNet(model).export() on three traced architectures with BatchNorm, in both modes) with symbolic selection coefficients, weights and inputs: exported graph == hard-selection '
                     'graph on every input, exactly the arg-max branch and the fixed layers remain, the combiner is gone, outside layers untouched.  This is a '
                     'bounded stand-in in the topology dimension, never counted as a proof over all SuperNets.',
-        not_decided=['all networks with 1..3 blocks of 2..12 branches: topologies are enumerated, not quantified', 'blocks invoked twice in forward',
+        not_decided=['all networks with 1..3 blocks of 2..12 branches: topologies are enumerated, not quantified',
                      'user-defined multi-layer blocks whose traced form ends in a functional op (observed natively to make export raise - see DESIGN.md 6.1)',
-                     'the tracing step itself (how a SuperNetModule appears in the traced graph is an assumption of the harness)'],
-        trusted=['torch.fx graph mutators as specified in pyvc/torchlib.py (FxGraph / FxNode / FxGraphModule), validated against the real torch.fx by the cross-check'],
+                     'in the graph-level harness (export-graph) how a SuperNetModule appears in the traced graph is an assumption; the whole-model harness (contracts/whole_supernet.py) traces real '
+                     'SuperNetModule networks through the tracer contract of pyvc/fxtrace.py'],
+        trusted=['torch.fx graph mutators as specified in pyvc/torchlib.py (FxGraph / FxNode / FxGraphModule) and symbolic tracing / GraphModule / ShapeProp as specified in pyvc/fxtrace.py, '
+                 'validated against the real torch.fx by the cross-check on every run (traced node lists, module tables, annotations are observations)'],
         assumptions=['no ties among the selection coefficients'],
     ),
 }
